@@ -547,6 +547,25 @@ func (x *Exec) substituteEnsures(cm *calleeCtx, nA int, pc0 *Term) {
 		eqs = append(eqs, conj(body)...)
 	}
 	for _, e := range eqs {
+		if e.Op == OForall && len(e.Args) == 2 {
+			// forall k. k < n  =>  F[k] = G[k]   with F a fresh array: the result's octets are G's
+			// (what lies beyond the length of a fresh result is never observed)
+			k, body := e.Args[0], e.Args[1]
+			if body.Op == OImp && body.Args[1].Op == OEq {
+				l, r := body.Args[1].Args[0], body.Args[1].Args[1]
+				for rep := 0; rep < 2; rep++ {
+					if l.Op == OSelect && r.Op == OSelect && l.Args[1] == k && r.Args[1] == k &&
+						l.Args[0].Op == OVar && cm.fresh[l.Args[0].id] && !containsVar(r.Args[0], l.Args[0].id) && !r.Args[0].hasBound {
+						if _, dup := sub[l.Args[0].id]; !dup {
+							sub[l.Args[0].id] = Subst(r.Args[0], sub)
+						}
+						break
+					}
+					l, r = r, l
+				}
+			}
+			continue
+		}
 		if e.Op != OEq {
 			continue
 		}
